@@ -15,6 +15,7 @@ import (
 
 	"github.com/ExocoreNetwork/exocore/utils"
 	assetstypes "github.com/ExocoreNetwork/exocore/x/assets/types"
+	avstypes "github.com/ExocoreNetwork/exocore/x/avs/types"
 	delegationtypes "github.com/ExocoreNetwork/exocore/x/delegation/types"
 	epochstypes "github.com/ExocoreNetwork/exocore/x/epochs/types"
 )
@@ -270,6 +271,7 @@ type Snap struct {
 	Op     *OpState
 	Dog    *DogState
 	Epochs map[string]epochstypes.EpochInfo
+	AVS    map[string]avstypes.AVSInfo
 	Height int64
 }
 
@@ -278,7 +280,7 @@ var LedgerStores = []string{"assets", "delegation", "operator", "dogfood", "avs"
 func (c *Chain) Snapshot() *Snap {
 	ctx := c.Ctx()
 	raw := c.DumpStores(ctx, LedgerStores)
-	s := &Snap{Raw: raw, Ledger: c.ParseLedger(ctx, raw), Op: ParseOpState(raw), Dog: ParseDogState(raw), Height: c.Height(), Epochs: map[string]epochstypes.EpochInfo{}}
+	s := &Snap{Raw: raw, Ledger: c.ParseLedger(ctx, raw), Op: ParseOpState(raw), Dog: ParseDogState(raw), AVS: ParseAVS(raw), Height: c.Height(), Epochs: map[string]epochstypes.EpochInfo{}}
 	for k, v := range raw["epochs"] {
 		if len(k) > 0 && k[0] == epochstypes.KeyPrefixEpoch[0] {
 			var e epochstypes.EpochInfo
